@@ -234,6 +234,8 @@ def comp_st(draw, cfg):
                     t["instr"] = donors[0]
             tracks[0]["instr"] = donors[0]
             comp["share_instruments"] = True
+    if draw(st.integers(0, 2)) == 0:  # drawn last: the author's e-mail address (Composition.set_author takes both)
+        comp["email"] = draw(cfg.text)
     return comp
 
 
@@ -255,6 +257,8 @@ def features(comp_or_track):
         for a, b in zip(es, es[1:]):
             if (not a["notes"]) != (not b["notes"]) and (len(a["notes"] or []) > 1 or len(b["notes"] or []) > 1):
                 f.add("rest-next-to-chord")
+        if comp_or_track.get("email"):
+            f.add("author-with-e-mail")
         if any(not e["notes"] for e in es):
             f.add("rest")
         if any(e["notes"] == [] for e in es):
